@@ -2,7 +2,7 @@
 from collections import Counter
 from hypothesis import strategies as st
 
-from vlib.runner import Check, Outcome
+from vlib.runner import Check, Outcome, InvalidCase
 from vlib.interp import execute
 from vlib.probe import Probe
 from vlib.scopelog import foreign_exception, Structure
@@ -91,6 +91,9 @@ def judge(out, prog, it, oc, exc, ctx):
     if fe:
         out.fail('run_outcome', 'activity_exc:%s' % fe[1][1], '%s%s ended with %r, which the program did not raise;%s' % (
             fe[0][1], fe[0][2], fe[1], ctx))
+    fin_root = next((r for r in prog['roots'] if r['name'] == 'fin'), None)
+    if fin_root is None or not any(s_['op'] == 'qclose' for s_ in fin_root['steps']) or fin_root['steps'][0]['op'] != 'at_ge':
+        raise InvalidCase('the final close + drain of the stream is part of every case')      # (shrinking removes it)
     S = Structure(prog)
     log = [e for e in it.log if e[0] <= it.end_seq]
     qops = ('qput', 'qget', 'qiter', 'qclose')
